@@ -29,7 +29,7 @@ def h1_session(rng):
     for _ in range(rng.choice([1, 1, 2, 3])):
         method = rng.choice([b"GET", b"POST", b"HEAD", b"PUT", b"OPTIONS"])
         target = rng.choice([b"/", b"/a/b?x=1", b"/%41%zz", b"*", b"/" + b"a" * 200])
-        hs = [(b"Host", b"example.com")]
+        hs = [(b"Host", rng.choice([b"example.com", b"example.com", b"example.com", b"ex\xffmple.com", b"\xe9\xe9"]))]
         body = b""
         if method in (b"POST", b"PUT"):
             body = rng.choice([b"", b"hello", b"x" * 3000])
@@ -256,9 +256,9 @@ def simple_app(driver):
     return app
 
 
-def run_bytes(pieces, alpn, worker, seed, policy, eof=True):
+def run_bytes(pieces, alpn, worker, seed, policy, eof=True, server_names=()):
     driver = S.Driver(seed=seed, policy=policy)
-    cfg = R.make_config(())
+    cfg = R.make_config(server_names)
     cfg._log = R.RecLog([])
     rig = S.ProtoRig(simple_app(driver), cfg, driver, alpn=alpn, ssl=(alpn == "h2"), worker=worker)
     outcomes = []
@@ -317,12 +317,16 @@ def h1_case(seed):
             data = mutate(rng, data)
     worker = rng.choice(["asyncio", "trio"])
     policy = rng.choice(["fifo", "random"])
-    desc = {"seed": seed, "protocol": "h1", "kind": kind, "worker": worker, "bytes": len(data), "eof": True, "head": data[:60].hex()}
-    rig, driver, outcomes = run_bytes(segments(rng, data), "http/1.1", worker, seed, policy)
+    names = rng.choice([(), (), ("example.com",)])        # with server names configured the Host header is looked at
+    desc = {"seed": seed, "protocol": "h1", "kind": kind, "worker": worker, "bytes": len(data), "eof": True, "head": data[:60].hex(),
+            "server_names": list(names)}
+    rig, driver, outcomes = run_bytes(segments(rng, data), "http/1.1", worker, seed, policy, server_names=names)
     fails = judge_common(rig, driver, outcomes, desc)
     verdict, hint, our_state = h1_verdict(data)
     desc["verdict"] = verdict
-    if verdict == "error" and our_state in (h11.IDLE, h11.SEND_RESPONSE) and not fails:
+    # (with server names configured a request for another host is answered 404 before the rest of it is even parsed: the
+    # hinted-status oracle is for the plain configuration)
+    if verdict == "error" and our_state in (h11.IDLE, h11.SEND_RESPONSE) and not fails and not names:
         # the first request is malformed: the hinted status, connection: close, then closed
         written = bytes(rig.transport.written)
         cl = h11.Connection(h11.CLIENT)
